@@ -48,6 +48,7 @@ class Ctx:
         self.uninit = []
         self.notes = []
         self.domain = []     # constraints added by setup (the bounded domain)
+        self.any_fresh = False
 
     # -- solver access -------------------------------------------------------------------
     def assume(self, *cs):
@@ -73,6 +74,7 @@ class Ctx:
         self.oob = []
         self.uninit = []
         self.notes = []
+        self.fresh = 0      # fresh names restart on every path so that a replayed prefix rebuilds identical terms
 
     def decide(self, cond):
         cond = z3.simplify(cond)
@@ -108,10 +110,12 @@ class Ctx:
         return d
 
     def fresh_real(self, name='r'):
+        self.any_fresh = True
         self.fresh += 1
         return z3.Real(f'{name}!{self.fresh}')
 
     def fresh_int(self, name='i'):
+        self.any_fresh = True
         self.fresh += 1
         return z3.Int(f'{name}!{self.fresh}')
 
@@ -687,6 +691,7 @@ def as_table(x):
 
 
 UF_MODE = False
+NRA_MODE = False
 _UF = {}
 
 
@@ -798,6 +803,12 @@ class SReal:
             return SReal(z=s.z / z3.RealVal(str(c)))
         if UF_MODE:
             return SReal(z=uf('div', s.z, o.z))
+        if NRA_MODE:
+            # quotient as a fresh real t with  b != 0 -> t*b == a  (small nonlinear side constraint; b == 0 leaves t unconstrained,
+            # the IEEE inf/nan of that case is outside the exact-real model)
+            t = CTX.fresh_real('quot')
+            CTX.solver.add(z3.Implies(o.z != 0, t * o.z == s.z))
+            return SReal(z=t)
         raise ShimUnsupported('real division by a non-constant outside the table tier')
 
     def __rtruediv__(s, o):
